@@ -29,6 +29,14 @@ Theorem use_after_owner_release_violates : forall s w v s' oc,
 Proof. exact use_after_owner_release_is_violation. Qed.
 Print Assumptions use_after_owner_release_violates.
 
+(* initializing stores: an init store to a slot whose token is not provably unset is a violation of the
+   concrete semantics (hence excluded by checker_sound); a slot is unset only on entry (fresh self) and
+   until the first store / escape *)
+Theorem init_store_to_possibly_set_slot_violates : forall s t oc,
+  (forall u, s t <> CNull u) -> cmicro (MSlotInit t) oc s = Viol.
+Proof. intros s t oc H. simpl. destruct (s t) eqn:E; auto. exfalso. eapply H; eauto. Qed.
+Print Assumptions init_store_to_possibly_set_slot_violates.
+
 (* Always-defined attributes: if the check accepts (claimed set, defaults, abstracted __init__), then on every
    path of __init__ no attribute claimed always-defined is read, or visible to code that self leaked to
    (incl. the caller at Return), before it was assigned. *)
@@ -51,10 +59,10 @@ Proof. vm_compute. reflexivity. Qed.
 (* ---- examples -------------------------------------------------------------------------------- *)
 Definition O (k : opkind) (d : option val) (rc bor mn fl : bool) (src st : list val) : op :=
   {| okind := k; odest := d; orc := rc; oborrowed := bor; omaynull := mn; oflag := fl; osrcs := src; ostolen := st;
-     oowner := None |}.
+     oowner := None; oslot := []; okill := [] |}.
 Definition OB (d : val) (src : list val) (w : val) : op :=     (* borrowed refcounted result, borrowed from w *)
   {| okind := KOther; odest := Some d; orc := true; oborrowed := true; omaynull := false; oflag := false;
-     osrcs := src; ostolen := []; oowner := Some w |}.
+     osrcs := src; ostolen := []; oowner := Some w; oslot := []; okill := [] |}.
 
 (* def f(x): r2 = g(x) [may fail]; if is_error(r2) goto L3 else L2;  L2: dec_ref r2; return 1
                                                                      L3: r3 = <error>; return r3       *)
@@ -62,7 +70,7 @@ Definition ex_ok : func := mk_func
   [ (1, mk_block [O KOther (Some 2) true false true false [1] []] (TBranch BIsError (Some 2) false 3 2));
     (2, mk_block [O KDecRef None false false false false [2] []] (TReturn None false));
     (3, mk_block [O KLoadErr (Some 3) true false false false [] []] (TReturn (Some 3) true)) ]%positive
-  [(1%positive, false)].
+  [(1%positive, false)] [].
 Example ex_ok_accepted : check_func ex_ok 100 = Accept.
 Proof. vm_compute. reflexivity. Qed.
 
@@ -72,13 +80,13 @@ Definition ex_bad_errdec : func := mk_func
     (2, mk_block [O KDecRef None false false false false [2] []] (TReturn None false));
     (3, mk_block [O KDecRef None false false false false [2] []; O KLoadErr (Some 3) true false false false [] []]
                  (TReturn (Some 3) true)) ]%positive
-  [(1%positive, false)].
+  [(1%positive, false)] [].
 Example ex_bad_errdec_rejected : check_func ex_bad_errdec 100 = Reject 3%positive 0 3 2%positive.
 Proof. vm_compute. reflexivity. Qed.
 
 (* returning a borrowed argument without inc_ref: rejected (release of a reference not owned, code 2) *)
 Definition ex_bad_borrowed_return : func := mk_func
-  [ (1, mk_block [] (TReturn (Some 1) true)) ]%positive [(1%positive, false)].
+  [ (1, mk_block [] (TReturn (Some 1) true)) ]%positive [(1%positive, false)] [].
 Example ex_bad_borrowed_return_rejected : check_func ex_bad_borrowed_return 100 = Reject 1%positive 0 2 1%positive.
 Proof. vm_compute. reflexivity. Qed.
 
@@ -89,7 +97,7 @@ Definition ex_loop : func := mk_func
     (3, mk_block [O KOther (Some 3) true false false false [1] [];
                   O KDecRef None false false false false [1] [];
                   O KAssign (Some 1) true false false false [3] [3]] (TGoto 2));
-    (4, mk_block [] (TReturn (Some 1) true)) ]%positive [(1%positive, false)].
+    (4, mk_block [] (TReturn (Some 1) true)) ]%positive [(1%positive, false)] [].
 Example ex_loop_accepted : check_func ex_loop 100 = Accept.
 Proof. vm_compute. reflexivity. Qed.
 
@@ -99,7 +107,7 @@ Definition ex_loop_leak : func := mk_func
     (2, mk_block [O KOther (Some 2) false false false false [1] []] (TBranch BBool (Some 2) false 3 4));
     (3, mk_block [O KOther (Some 3) true false false false [1] [];
                   O KAssign (Some 1) true false false false [3] [3]] (TGoto 2));
-    (4, mk_block [] (TReturn (Some 1) true)) ]%positive [(1%positive, false)].
+    (4, mk_block [] (TReturn (Some 1) true)) ]%positive [(1%positive, false)] [].
 Example ex_loop_leak_rejected : check_func ex_loop_leak 100 = Reject 3%positive 2 5 1%positive.
 Proof. vm_compute. reflexivity. Qed.
 
@@ -107,7 +115,7 @@ Proof. vm_compute. reflexivity. Qed.
 Definition ex_borrow_ok : func := mk_func
   [ (1, mk_block [O KOther (Some 2) true false false false [] []; OB 3 [2] 2;
                   O KOther None false false false false [3] [];
-                  O KDecRef None false false false false [2] []] (TReturn None false)) ]%positive [].
+                  O KDecRef None false false false false [2] []] (TReturn None false)) ]%positive [] [].
 Example ex_borrow_ok_accepted : check_func ex_borrow_ok 100 = Accept.
 Proof. vm_compute. reflexivity. Qed.
 
@@ -115,7 +123,7 @@ Proof. vm_compute. reflexivity. Qed.
 Definition ex_borrow_bad : func := mk_func
   [ (1, mk_block [O KOther (Some 2) true false false false [] []; OB 3 [2] 2;
                   O KDecRef None false false false false [2] [];
-                  O KOther None false false false false [3] []] (TReturn None false)) ]%positive [].
+                  O KOther None false false false false [3] []] (TReturn None false)) ]%positive [] [].
 Example ex_borrow_bad_rejected : check_func ex_borrow_bad 100 = Reject 1%positive 4 1 3%positive.
 Proof. vm_compute. reflexivity. Qed.
 
@@ -124,8 +132,40 @@ Definition ex_borrow_move : func := mk_func
   [ (1, mk_block [O KOther (Some 2) true false false false [] []; OB 3 [2] 2;
                   O KAssign (Some 4) true false false false [2] [2];
                   O KOther None false false false false [3] [];
-                  O KDecRef None false false false false [4] []] (TReturn None false)) ]%positive [].
+                  O KDecRef None false false false false [4] []] (TReturn None false)) ]%positive [] [].
 Example ex_borrow_move_accepted : check_func ex_borrow_move 100 = Accept.
+Proof. vm_compute. reflexivity. Qed.
+
+(* initializing attribute stores (SetAttr.is_init does not release the old slot value).
+   v1 = self of __init__, token 9 = slot (self, t), unset on entry.  An op with oslot = [9] is an init store. *)
+Definition OS (src : list val) (st : list val) (slot kill : list val) : op :=
+  {| okind := KOther; odest := None; orc := false; oborrowed := false; omaynull := false; oflag := false;
+     osrcs := src; ostolen := st; oowner := None; oslot := slot; okill := kill |}.
+(* r2 = T(); self.t = r2 [init]; return *)
+Definition ex_init_ok : func := mk_func
+  [ (1, mk_block [O KOther (Some 2) true false false false [] []; OS [1; 2] [2] [9] []] (TReturn None false)) ]%positive
+  [(1%positive, false)] [9%positive].
+Example ex_init_ok_accepted : check_func ex_init_ok 100 = Accept.
+Proof. vm_compute. reflexivity. Qed.
+(* two init stores to the same slot on one path: the first value leaks, code 11 *)
+Definition ex_init_twice : func := mk_func
+  [ (1, mk_block [O KOther (Some 2) true false false false [] []; OS [1; 2] [2] [9] [];
+                  O KOther (Some 3) true false false false [] []; OS [1; 3] [3] [9] []] (TReturn None false)) ]%positive
+  [(1%positive, false)] [9%positive].
+Example ex_init_twice_rejected : check_func ex_init_twice 100 = Reject 1%positive 9 11 9%positive.
+Proof. vm_compute. reflexivity. Qed.
+(* init store through a value that is not the fresh self (no unset token exists for it): code 11 *)
+Definition ex_init_other : func := mk_func
+  [ (1, mk_block [O KOther (Some 3) true false false false [] []; OS [2; 3] [3] [8] []] (TReturn None false)) ]%positive
+  [(1%positive, false); (2%positive, false)] [9%positive].
+Example ex_init_other_rejected : check_func ex_init_other 100 = Reject 1%positive 4 11 8%positive.
+Proof. vm_compute. reflexivity. Qed.
+(* self.t = r2 [init]; Base.__init__(self) where Base.__init__ init-stores t as well: the call needs slot 9 unset *)
+Definition ex_init_super : func := mk_func
+  [ (1, mk_block [O KOther (Some 2) true false false false [] []; OS [1; 2] [2] [9] [];
+                  OS [1] [] [9] [9]] (TReturn None false)) ]%positive
+  [(1%positive, false)] [9%positive].
+Example ex_init_super_rejected : check_func ex_init_super 100 = Reject 1%positive 6 11 9%positive.
 Proof. vm_compute. reflexivity. Qed.
 
 (* non-vacuity of the hypotheses of checker_sound: an accepted function, an initial configuration, a step *)
